@@ -121,6 +121,13 @@ Proof.
   injection H as H1 H2 H3 H4. repeat split; assumption.
 Qed.
 
+Lemma erase_hd_eager l l' :
+  map erase_toggle l = map erase_toggle l' -> a_eager (hd default_ans l) = a_eager (hd default_ans l').
+Proof.
+  destruct l as [|a l], l' as [|a' l']; cbn [map hd tl]; intros H; try discriminate; [reflexivity|].
+  injection H as H1 H2 H3 H4 H5. assumption.
+Qed.
+
 Ltac simd H :=
   let C := fresh "C" in let O := fresh "O" in let K := fresh "K" in let L := fresh "L" in
   let E := fresh "E" in let P := fresh "P" in
@@ -301,20 +308,35 @@ Proof.
   unfold packet_set_buf. rewrite <- F2, <- F3. apply csim_intro; up; congruence.
 Qed.
 
+Lemma close_give_sim d a a' w w' :
+  a_newbuf a = a_newbuf a' -> sim w w' -> sim (close_give d a w) (close_give d a' w').
+Proof.
+  intros B S1.
+  destruct (csim_fields _ _ (sim_csim _ _ S1)) as [G1 [G2 _]].
+  unfold close_give. cbv zeta. rewrite <- G1, <- G2, <- B.
+  match goal with |- context [logev w ?e] => pose proof (logev_sim w w' e S1) as S2 end.
+  destruct (a_newbuf _); [|exact S2].
+  apply setc_sim; [exact S2|]. apply packet_set_buf_csim, (sim_csim _ _ S2).
+Qed.
+
 Lemma close_cb_sim d w w' : c_in_ts (w_c w) = true -> sim w w' -> sim (close_cb d w) (close_cb d w').
 Proof.
   intros Hi H. rewrite !close_cb_eq.
+  assert (I1 : c_in_ts (w_c (close_fn d (cb_enter 2 w))) = true).
+  { rewrite FlagProofs.close_fn_flag. unfold cb_enter; up; togs; exact Hi. }
   assert (S1 : sim (close_fn d (cb_enter 2 w)) (close_fn d (cb_enter 2 w'))).
   { apply close_fn_sim; [|apply cb_enter_sim, H]. unfold cb_enter; up; togs; exact Hi. }
   set (x := close_fn d (cb_enter 2 w)) in *. set (x' := close_fn d (cb_enter 2 w')) in *.
   destruct (csim_fields _ _ (sim_csim _ _ H)) as [_ [_ [_ [_ [_ [_ [_ [Ho _]]]]]]]].
   destruct (csim_fields _ _ (sim_csim _ _ S1)) as [G1 [G2 [G3 [G4 [G5 [G6 [G7 [G8 [G9 [G10 [G11 G12]]]]]]]]]]].
   destruct (erase_hd _ _ (proj1 (proj2 H))) as [_ [B _]].
-  unfold close_hand. cbv zeta. rewrite <- Ho, <- G8. destruct (_ && _); [|exact S1].
-  rewrite <- G1, <- G2. unfold hd_ans. rewrite <- B.
-  match goal with |- context [logev x ?e] => pose proof (logev_sim x x' e S1) as S2 end.
-  destruct (a_newbuf _); [|exact S2].
-  apply setc_sim; [exact S2|]. apply packet_set_buf_csim, (sim_csim _ _ S2).
+  pose proof (erase_hd_eager _ _ (proj1 (proj2 H))) as Eg.
+  unfold close_hand. rewrite <- Ho, <- G8. destruct (_ && _); [|exact S1].
+  unfold hd_ans. rewrite <- Eg.
+  pose proof (close_give_sim d _ _ x x' B S1) as S2.
+  destruct (a_eager _); [|exact S2].
+  apply open_fn_sim; [|exact S2].
+  rewrite <- I1. unfold close_give. cbv zeta. destruct (a_newbuf _); reflexivity.
 Qed.
 
 Lemma with_use_ts_sim f w w' :
